@@ -192,4 +192,113 @@ theorem gs_poolLoop (h : GS fr df w) (hes : EndSep w) (hsep : CondSep w) (hfr : 
         have := hn2 (by rw [hr2]; simp)
         exact ⟨rfl, by omega⟩
 
+theorem GS.setPoolsModifySame (h : GS fr df w) (r : Nat) (g : Pool → Pool)
+    (hg : ∀ x, (poolStat (g x), poolNeed (g x)) = (poolStat x, poolNeed x)) : GS fr df { w with pools := w.pools.modify r g } :=
+  h.inert (h.ginv.setPoolsModify r g (fun x => congrArg Prod.fst (hg x))) ((Inert.refl w).setPoolsModify r g hg)
+
+/-- giving back what a failed acquisition had collected (unless the holder list is corrupt, which the model records as a
+    fault) -/
+theorem gs_poolRollback (h : GS fr df w) (pl ini : Nat) :
+    (poolRollback w p pl ini).fault = none → GH df (poolRollback w p pl ini) := by
+  simp only [Sim.poolRollback]
+  split
+  · exact fun _ => h.gh
+  · rename_i x hx
+    have hgx := gOf_pools_of hx
+    split
+    · split
+      · intro _
+        refine GS.gh (fr := fr) (gs_pool_putback (w := setHeldAmount w pl p ini) (by gs) ?_ _)
+        rw [gOf_of_stat (w := w) (by have h0 := Stat.refl w; stat)]; exact hgx
+      · exact fun _ => h.gh
+    · split
+      · rename_i h' found hrm
+        intro _
+        -- units are put back: one more may be available until the guard has been signalled
+        have h1 : GS fr (fun d => df d + (if d = .poolAvail pl then 1 else 0)) (setPoolInUse w pl (x.inUse - heldAmount w pl p)) :=
+          h.objUpd ((Stat.refl w).setPoolInUse pl _) rfl rfl rfl
+            (fun d => by have := need_setPoolInUse_le w pl (x.inUse - heldAmount w pl p) d; omega)
+        have hst : Stat w (if found = true then
+            (removeHeld { recordPool (setPoolInUse w pl (x.inUse - heldAmount w pl p)) pl with
+              pools := (recordPool (setPoolInUse w pl (x.inUse - heldAmount w pl p)) pl).pools.modify pl fun y => { y with holders := h' } } p (.pool pl)).1
+            else { recordPool (setPoolInUse w pl (x.inUse - heldAmount w pl p)) pl with
+              pools := (recordPool (setPoolInUse w pl (x.inUse - heldAmount w pl p)) pl).pools.modify pl fun y => { y with holders := h' } }) := by
+          have hsV := (((Stat.refl w).setPoolInUse pl (x.inUse - heldAmount w pl p)).recordPool pl).setPoolsModify pl
+            (fun y => { y with holders := h' }) (fun _ => rfl)
+          split
+          · exact hsV.removeHeld_fst p _
+          · exact hsV
+        refine GS.gh (fr := fr) (GS.signal (df := fun d => df d + (if d = .poolAvail pl then 1 else 0)) ?_ x.guard
+          (fun d _ => by show df d + _ ≤ df d + 1; split <;> omega) ?_)
+        · have h2 : GS fr (fun d => df d + (if d = .poolAvail pl then 1 else 0))
+              { recordPool (setPoolInUse w pl (x.inUse - heldAmount w pl p)) pl with
+                pools := (recordPool (setPoolInUse w pl (x.inUse - heldAmount w pl p)) pl).pools.modify pl fun y => { y with holders := h' } } :=
+            (h1.recordPool pl).setPoolsModifySame pl _ (fun _ => rfl)
+          split
+          · exact h2.removeHeld_fst p _
+          · exact h2
+        · intro d hd
+          rw [gOf_of_stat hst] at hd
+          show df d + _ ≤ df d
+          split
+          · rename_i hdd; subst hdd; exact absurd hgx hd
+          · omega
+      · intro hf; exact (fail_fault_none hf).elim
+
+theorem gs_cmd_poolAcquire (h : GS fr df w) (hes : EndSep w) (hsep : CondSep w) (hfr : fr p = none) (hlt : p < w.procs.size)
+    (pl n : Nat) : GH df (execCmd w p (.poolAcquire pl n)).1 := by
+  simp only [Sim.execCmd]
+  split
+  · exact h.gh
+  · split
+    · exact h.gh
+    · exact gs_poolLoop h hes hsep hfr hlt pl n _ false (fun _ _ => Nat.le_refl _) (Nat.le_succ _)
+
+theorem gs_cmd_poolPreempt (h : GS fr df w) (hes : EndSep w) (hsep : CondSep w) (hfr : fr p = none) (hlt : p < w.procs.size)
+    (pl n : Nat) : GH df (execCmd w p (.poolPreempt pl n)).1 := by
+  simp only [Sim.execCmd]
+  split
+  · exact h.gh
+  · split
+    · exact h.gh
+    · exact gs_poolLoop h hes hsep hfr hlt pl n _ true (fun _ _ => Nat.le_refl _) (Nat.le_succ _)
+
+theorem gs_cmd_poolRelease (h : GS fr df w) (pl n : Nat) : GH df (execCmd w p (.poolRelease pl n)).1 := by
+  simp only [Sim.execCmd]
+  split
+  · exact h.gh
+  · rename_i x hx
+    split
+    · exact h.gh
+    · refine GS.gh (fr := fr) (gs_pool_putback ?_ ?_ _)
+      · gs
+      · rw [gOf_of_stat (w := w) (by have h0 := Stat.refl w; stat)]; exact gOf_pools_of hx
+
+/-- the `pool` frame -/
+theorem gs_resume_pool (h : GS fr df w) (hes : EndSep w) (hsep : CondSep w) {pl rem ini : Nat} {pre : Bool}
+    (hfr : fr p = some (.pool pl rem ini pre)) (hlt : p < w.procs.size) (sig : Int) (hq : sig = sigSuccess → Quiet w p)
+    (hdf : ∀ d, d ≠ .poolAvail pl → df d ≤ df' d) (hdf1 : df (.poolAvail pl) ≤ df' (.poolAvail pl) + 1)
+    (hdf0 : sig ≠ sigSuccess → ∀ d, df d ≤ df' d) :
+    (resumeFrame (w.modProc p fun y => { y with blocked := none }) p (.pool pl rem ini pre) sig).1.fault = none →
+    GH df' (resumeFrame (w.modProc p fun y => { y with blocked := none }) p (.pool pl rem ini pre) sig).1 := by
+  simp only [Sim.resumeFrame]
+  split
+  · rename_i hn
+    intro _
+    have hi : Inert w (w.modProc p fun y => { y with blocked := none }) := by have h0 := Inert.refl w; inert
+    refine (h.gh.inert h.ginv.ei hi).clear' (.poolAvail pl) ?_ hdf
+    rw [need_eq]; simp only; rw [hn]; rfl
+  · rename_i x hx
+    have hx' : w.pools[pl]? = some x := hx
+    have hon : FrameOn w (.pool pl rem ini pre) x.guard := by simp [FrameOn, hx', poolStat]
+    have hL := gs_leave h hfr hon (fun c hc => by cases hc) sig hq
+    have hst := stat_leave w p x.guard sig
+    split
+    · rename_i hs
+      intro hf
+      have := gs_poolRollback (p := p) hL pl ini hf
+      exact ⟨this.1, this.2.mono (hdf0 hs)⟩
+    · intro _
+      exact gs_poolLoop hL (hes.ofStat hst) (hsep.ofStat hst) (setFrame_self _ _ _) (by rw [hst.psize]; exact hlt) pl rem ini pre hdf hdf1
+
 end CimbaModel.Sim.S3
